@@ -40,7 +40,8 @@ class C17(Scenario):
     level = "exploration"
     rule = (
         "case = (delay, producer program of put(delayed?)/sleep(gap) with elements that are distinct objects but may compare equal, remover program of remove(target)/sleep, "
-        "optional closer, scheduler configuration) drawn from the run seed; gaps drawn around the delay boundary "
+        "optional closer, in 30% of the closer-less runs a second consumer blocked on the empty queue before the final close(), in 25% of the runs wall-clock steps of +-0.5/1/3 delays, "
+        "scheduler configuration) drawn from the run seed; gaps drawn around the delay boundary "
         "on the tick clock; distinct = distinct (operation-history digest, interleaving digest) pairs; non-trivial = at "
         "least one non-default scheduling decision (pre-emption) was taken in the run"
     )
